@@ -86,6 +86,16 @@ func (em Extensions) Validate() error {
 			err[ks] = errors.New("undefined")
 			continue
 		}
+		// Values must always be valid codes, as published in the schema,
+		// regardless of what the definition's own values or pattern allow.
+		if ev == cbc.CodeEmpty {
+			err[ks] = errors.New("cannot be blank")
+			continue
+		}
+		if e := ev.Validate(); e != nil {
+			err[ks] = e
+			continue
+		}
 		if len(kd.Values) > 0 && !kd.HasCode(ev) {
 			err[ks] = fmt.Errorf("value '%s' invalid", ev)
 		}
